@@ -188,3 +188,33 @@ def loop_exits(loop: ast.For) -> List[ast.stmt]:
                 rec(h.body, inner_own)
     rec(loop.body, True)
     return out
+
+
+def origins(repo: Repo, f: Func, name: str, depth: int = 2) -> List[Tuple[Func, ast.AST]]:
+    """Where can the value of local `name` in f come from: the right-hand sides assigned to it in f (tuple targets give the whole
+    right-hand side) and, when it is a parameter, the origins of the argument at every call site of f in pydoctor (followed `depth`
+    levels through plain names).  An origin that cannot be followed is returned as the expression itself."""
+    out: List[Tuple[Func, ast.AST]] = []
+    for n in f.walk():
+        if isinstance(n, (ast.Assign, ast.AnnAssign)) and n.value is not None:
+            for t in (n.targets if isinstance(n, ast.Assign) else [n.target]):
+                names = [t] if isinstance(t, ast.Name) else list(t.elts) if isinstance(t, (ast.Tuple, ast.List)) else []
+                if any(isinstance(x, ast.Name) and x.id == name for x in names):
+                    out.append((f, n.value))
+    ps = [p.arg for p in f.params()]
+    if name in ps and depth > 0:
+        idx = ps.index(name)
+        for g in repo.funcs.values():
+            if '.test' in g.mod.name:
+                continue
+            for c in calls_in(g, lambda c: call_name(c) == f.name):
+                off = 1 if (ps and ps[0] in ('self', 'cls') and isinstance(c.func, ast.Attribute)) else 0
+                arg = next((k.value for k in c.keywords if k.arg == name), c.args[idx - off] if 0 <= idx - off < len(c.args) else None)
+                if arg is None:
+                    continue
+                if isinstance(arg, ast.Name):
+                    sub = origins(repo, g, arg.id, depth - 1)
+                    out.extend(sub if sub else [(g, arg)])
+                else:
+                    out.append((g, arg))
+    return out
